@@ -15,6 +15,14 @@ Case kinds
           ascii_table: the oracle is "completes without error".
   decode  bytes.decode("utf-8", errors=strict|replace) against the model's decoder (a parameter of
           the model: a mismatch is an infrastructure error, not a violation).
+  markdown frames with any (wire-encodable) text through DataFrame.markdown: never-fails oracle, and the
+          whole text compared with Model/Display.lean `markdownLines` (cells arrive as str(v)).
+  colorize strings made of colour tokens, damaged tokens, escapes and text through `colorizer`
+          against the model's sequential `replaceAll` over the extracted COLORS table.
+
+The Lean model executes the arithmetic extracted from the source on this run (`srcArith`), so the
+oracle is always evaluated first: on a mutated source the model follows the mutation and only the
+oracle (and the `src_*` theorems) can tell.
 """
 import datetime
 import decimal
@@ -146,7 +154,13 @@ def tag_cell(v):
     if isinstance(v, dict):
         return ["dict", [[str(a), str(b)] for a, b in v.items()], len(str(v))]
     if isinstance(v, datetime.timedelta):
+        if v.microseconds == 0:  # whole seconds: the model computes the pieces itself
+            return ["interval_int", 0, v.days, v.seconds, len(str(v))]
         return ["interval", interval_parts(v.days, 0, v.microseconds / 1e6 + v.seconds), len(str(v))]
+    if type(v).__name__ == "MonthDayNano":
+        if v.nanoseconds % 10**9 == 0:
+            return ["interval_int", v.months, v.days, v.nanoseconds // 10**9, len(str(v))]
+        return ["interval", interval_parts(v.days, v.months, v.nanoseconds / 1e9), len(str(v))]
     if isinstance(v, (list, tuple)):
         return ["list", [str(x) for x in v], len(str(v))]
     return ["other", str(v)]
@@ -282,7 +296,7 @@ def substitute(line, colors, on):
 def model_line(case):
     k = case["kind"]
     if k == "sel":
-        return "C18 visible " + wire.line(case["n"], case["limit"], case["tt"], bool(case.get("lazy")), True)
+        return "C18 visible " + wire.line(case["n"], case["limit"], case["tt"], bool(case.get("lazy")))
     if k == "render":
         _, types = build_schema(case)
         rows = [[tag_cell(mk(c)) for c in r] for r in case["rows"]]
@@ -292,6 +306,11 @@ def model_line(case):
         return "C18 decode " + wire.line(case["bytes"])
     if k == "total":
         return "echo N"
+    if k == "markdown":
+        rows = [[[mk(c) is None, str(mk(c))] for c in r] for r in case["rows"]]
+        return "C18 markdown " + wire.line(case["limit"], case["maxcol"], [str(n) for n in case["names"]], rows)
+    if k == "colorize":
+        return "C18 colorize " + wire.line(case["on"], case["text"])
     raise InfraError("bad case kind %r" % k)
 
 
@@ -449,6 +468,16 @@ def valid_case(c):
             return True
         if k == "decode":
             return isinstance(c["bytes"], bytes)
+        if k == "markdown":
+            if not (isinstance(c["limit"], int) and c["limit"] >= 1 and c["maxcol"] >= 0):
+                return False
+            if any(not isinstance(n, str) for n in c["names"]) or any(len(r) != len(c["names"]) for r in c["rows"]):
+                return False
+            model_line(c).encode("utf-8")
+            return True
+        if k == "colorize":
+            c["text"].encode("utf-8")
+            return isinstance(c["on"], bool)
     except Exception:
         return False
     return False
@@ -484,12 +513,18 @@ def outcome(case):
         return r["clause"], {"off": r["off"], "on": r["on"], "detail": r["detail"]}
     if k == "total":
         return run_total(case), None
+    if k == "markdown":
+        try:
+            rows = [tuple(mk(x) for x in r) for r in case["rows"]]
+            build_frame(dict(case, coltypes=None), rows).markdown(limit=case["limit"], max_column_width=case["maxcol"])
+        except Exception as e:  # noqa
+            return "rendering raised %s" % type(e).__name__, None
     return None, None
 
 
 def frame_shrink(case, still):
     """Drop whole rows and whole columns (names, types and cells together) while the failure stays."""
-    if case.get("kind") not in ("render", "total"):
+    if case.get("kind") not in ("render", "total", "markdown"):
         return case
     cur = case
     changed = True
@@ -546,12 +581,14 @@ def evaluate(ctx, cases):
             limit = 10 if c["via"] == "str" else c["limit"]
             tt = True if c["via"] != "ascii" else c["tt"]
             want = spec_lines(c["n"], limit, tt)
-            if c["via"] == "ascii" and m[0] != want:
-                raise InfraError("Lean `visible` differs from the statement's mirror on %r: %r vs %r" % (c, m[0], want))
+            # oracle first: the model follows the source, so model == mirror is a theorem about the
+            # source's arithmetic (Props `src_*`, `visible_*`), not something to assume here
             if clause is not None:
                 report_fail(ctx, c, clause, model=m[0])
             elif c["via"] == "ascii" and parsed != m[0]:
                 ctx.disagree(c, parsed, m[0])
+            elif c["via"] == "ascii" and m[0] != want:
+                ctx.disagree(c, parsed, m[0], "the model (arithmetic extracted from the source) differs from the statement")
         elif k == "render":
             r = run_render(c)
             ctx.case(c, len(c["rows"]) >= 1 and len(c["names"]) >= 1)
@@ -583,6 +620,29 @@ def evaluate(ctx, cases):
                     ctx.hit("cell:" + cell[0])
             if clause is not None:
                 report_fail(ctx, c, clause)
+        elif k == "markdown":
+            rows = [tuple(mk(x) for x in r) for r in c["rows"]]
+            ctx.case(c, len(c["rows"]) >= 1 and len(c["names"]) >= 1)
+            ctx.hit("markdown:%s" % ("lazy" if c.get("lazy") else "eager"))
+            try:
+                text = build_frame(dict(c, coltypes=None), rows).markdown(limit=c["limit"], max_column_width=c["maxcol"])
+            except Exception as e:  # noqa
+                report_fail(ctx, c, "rendering raised %s" % type(e).__name__)
+                continue
+            want = "\n".join(m[0])
+            if text != want:
+                ctx.disagree(c, text, want, "Markdown text differs from the model")
+        elif k == "colorize":
+            ctx.case(c, "\x01" in c["text"])
+            ctx.hit("colorize:%s" % ("on" if c["on"] else "off"))
+            from orso.display import colorizer
+
+            try:
+                got = colorizer(c["text"], c["on"], unescape=False)
+            except TypeError:
+                got = colorizer(c["text"], c["on"]) if "\\u0001" not in c["text"] else None
+            if got is not None and got != m[0]:
+                ctx.disagree(c, got, m[0], "colorizer differs from the model's sequential replace")
         elif k == "decode":
             strict, repl = run_decode(c)
             ctx.case(c, len(c["bytes"]) >= 1)
@@ -663,6 +723,10 @@ def gen_model_cell(rng, ctrl):
     if k == 11:
         return ["datetime", [rng.randint(1000, 9999), rng.randint(1, 12), rng.randint(1, 28), rng.randint(0, 23), rng.randint(0, 59), rng.randint(0, 59), rng.choice([0, 0, 5, 999999])]]
     if k == 12:
+        if rng.random() < 0.35:
+            return ["mdn", [rng.choice([0, 0, 1, 11, 12, 13, 25, -1, -13]), rng.choice([0, 0, 3, -3, 400]),
+                            rng.choice([0, 1, 59, 60, 61, 3599, 3600, 3661, 86399, 90061, -1, -3600, -3661, 10**6]) * 10**9
+                            + rng.choice([0, 0, 0, 500000000])]]
         return ["timedelta", [rng.choice([0, 0, 1, 3, -3, 400, 99999]), rng.choice([0, 0, 5, 59, 60, 3600, 3723, 86399]), rng.choice([0, 0, 0, 5, 500000, 999999])]]
     if k == 13:
         return ["dict", [[["str", gen_ascii(rng, 4, ctrl)], rng.choice([["int", rng.randint(0, 99)], ["str", gen_ascii(rng, 5, ctrl)], ["none"]])] for _ in range(rng.randint(0, 3))]]
@@ -775,6 +839,51 @@ def gen_frame_case(rng, kind):
     return case
 
 
+def gen_markdown_case(rng):
+    ncols = rng.choice([0, 1, 1, 2, 3])
+    nrows = rng.choice([0, 1, 2, 3, 9, 10, 11, 12, 25, 99, 100, 101]) if rng.random() < 0.6 else rng.randint(0, 30)
+
+    def cell():
+        r = rng.random()
+        if r < 0.15:
+            return ["none"]
+        if r < 0.4:
+            return ["int", rng.choice([0, 7, -300, 123456, 10**12])]
+        if r < 0.5:
+            return ["float", rng.choice([1.5, -0.25, 1e300, float("nan")])]
+        if r < 0.6:
+            return ["bool", rng.random() < 0.5]
+        if r < 0.9:
+            return ["str", gen_unicode(rng, 8).replace("\ud800", "")]
+        return rng.choice([["list", [["int", 1], ["str", "a"]]], ["dict", [[["str", "k"], ["int", 1]]]], ["bytes", b"ab\xff"], ["date", [2020, 1, 2]]])
+
+    cols = []
+    for _ in range(ncols):
+        allnone = rng.random() < 0.12
+        cols.append([["none"] if allnone else cell() for _ in range(nrows)])
+    return {"kind": "markdown", "names": [gen_unicode(rng, 6).replace("\ud800", "") if rng.random() < 0.4 else gen_ascii(rng, 8) for _ in range(ncols)],
+            "rows": [[cols[j][i] for j in range(ncols)] for i in range(nrows)], "limit": rng.choice([1, 2, 5, 9, 10, 11, 50, 200]),
+            "maxcol": rng.choice([0, 1, 2, 3, 4, 5, 8, 30]), "lazy": rng.random() < 0.4}
+
+
+def gen_colorize_case(rng):
+    colors = _colors() or {}
+    keys = list(colors) or ["\x01OFFm"]
+    parts = []
+    for _ in range(rng.randint(0, 8)):
+        r = rng.random()
+        if r < 0.4:
+            parts.append(rng.choice(keys))
+        elif r < 0.5:  # damaged or unknown tokens, overlapping markers
+            k = rng.choice(keys)
+            parts.append(rng.choice([k[:-1], k[1:], "\x01" + k, k + "m", "\x01NOPEm", "\x01", k.lower(), k[: len(k) // 2] + k]))
+        elif r < 0.6:
+            parts.append(rng.choice(["\x1b[0m", "\x1b", "m", "\\u0001OFFm", "\n"]))
+        else:
+            parts.append(gen_ascii(rng, 6))
+    return {"kind": "colorize", "on": rng.random() < 0.5, "text": "".join(parts)}
+
+
 def sel_exhaustive(nmax, lmax):
     for n in range(nmax + 1):
         for limit in range(1, lmax + 1):
@@ -840,10 +949,13 @@ def run(ctx):
     ctx.note("exhaustive_scope", "every (n, limit, mode, eager/lazy) with n in 0..%d, limit in 1..%d through ascii_table, DataFrame.display "
              "and str(): %d renderings; then random frames" % (nmax, lmax, len(batch)))
     n_sel, n_render, n_total, n_dec = ctx.scale((300, 1100, 1500, 1500), (3000, 12000, 20000, 20000))
+    n_md, n_col = ctx.scale((500, 800), (6000, 10000))
     rng = ctx.rng
     groups = [
         [sel_random(rng) for _ in range(n_sel)],
         [{"kind": "decode", "bytes": gen_bytes(rng)} for _ in range(n_dec)],
+        [gen_colorize_case(rng) for _ in range(n_col)],
+        [gen_markdown_case(rng) for _ in range(n_md)],
         [gen_frame_case(rng, "render") for _ in range(n_render)],
         [gen_frame_case(rng, "total") for _ in range(n_total)],
     ]
@@ -861,7 +973,7 @@ def intensify(ctx):
         if ctx.time_left() < 3 or ctx.violations:
             return
         evaluate(ctx, [gen_frame_case(rng, "render") for _ in range(300)] + [sel_random(rng) for _ in range(100)]
-                 + [gen_frame_case(rng, "total") for _ in range(300)])
+                 + [gen_frame_case(rng, "total") for _ in range(300)] + [gen_markdown_case(rng) for _ in range(100)])
 
 
 def replay(ctx, case):
